@@ -237,6 +237,23 @@ func (s *store) upsert(ctx context.Context, d interface{}, e interface{}) (inter
 	return s.wrap(s.m[dd.key]), nil
 }
 
+// partialRow is what upsertPartial returns when it is not handed the existing row: the columns
+// it wrote, not the full stored row (which only a load shows).
+type partialRow struct{ ver int }
+
+// upsertPartial is the upsert callback of upsert-then-load: it stores like upsert, and when the
+// caller has no existing row to merge with (e == nil) it returns only the partial row.
+func (s *store) upsertPartial(ctx context.Context, d interface{}, e interface{}) (interface{}, error) {
+	v, err := s.upsert(ctx, d, e)
+	if err != nil || e != nil {
+		return v, err
+	}
+	s.mu.Lock()
+	ver := s.m[d.(datum).key]
+	s.mu.Unlock()
+	return partialRow{ver}, nil
+}
+
 func (s *store) del(ctx context.Context, k interface{}) error {
 	key := keyStr(k)
 	fail, exit := s.enter("delete", key)
@@ -264,12 +281,13 @@ func (s *spy) Set(k interface{}, v interface{})       { s.inner.Set(k, v) }
 func (s *spy) Delete(k interface{})                   { s.inner.Delete(k) }
 
 type group struct {
-	deep    int
-	g       *mux.WorkerGrp
-	spies   []*spy // nil in built-in-constructor mode
-	name    string
-	lruCap  int
-	workers int
+	sequential bool // operations are issued one at a time (kind stream)
+	deep       int
+	g          *mux.WorkerGrp
+	spies      []*spy // nil in built-in-constructor mode
+	name       string
+	lruCap     int
+	workers    int
 }
 
 func newGroup(r interface{ Intn(int) int }) *group { return newGroupDeep(r, 64) }
@@ -377,6 +395,13 @@ func runOpCtx(ctx context.Context, g *group, st *store, op int, k mux.Hashed2Int
 	case 4:
 		return g.g.DoUpdOrAddIfNull(ctx, st.load, st.upd, st.add, isNotFound, k, d)
 	case 5:
+		if g.sequential && g.spies != nil {
+			// sequential stream with inspectable caches: when the key is not cached the worker
+			// will call the upsert without an existing row, and gets the partial row back
+			if _, cached, _ := g.cachedValue(k); !cached {
+				return g.g.DoUpsertThenLoad(ctx, st.upsertPartial, st.load, k, d)
+			}
+		}
 		return g.g.DoUpsertThenLoad(ctx, st.upsert, st.load, k, d)
 	default:
 		return g.g.DoUpsertThenRenewInCache(ctx, st.upsert, k, d)
@@ -409,6 +434,7 @@ type opRes struct {
 func streamCase(k *engine.Case) {
 	r := k.R
 	g := newGroup(r)
+	g.sequential = true
 	st := newStore()
 	keys, extreme := keyPool(r)
 	rate := []int{0, 15, 30, 50}[r.Intn(4)]
